@@ -474,6 +474,12 @@ func checkDecoderLoops(c *core.Ctx, funcs []*ssa.Function) {
 				}
 			}
 			if frame == nil {
+				if why := peekLoop(prog, h, body, nextFrame, typeFn, finVal, unkVal); why != "" {
+					c.Discharge("codec.loops", key, pos, why)
+					continue
+				}
+			}
+			if frame == nil {
 				if why, ok := reviewed[core.FnName(fn)]; ok {
 					c.Discharge("codec.loops", key, pos, "reviewed: "+why)
 				} else {
@@ -1587,4 +1593,128 @@ func checkPooledBytesEscape(c *core.Ctx) {
 		}
 	}
 	c.Floor("codec.poolescape", 3)
+}
+
+// peekLoop: a loop that goes on while the *next* frame is of a wanted kind - `for c.peekFrameIs(K) { … }` or `for
+// pred(c.peekFrame()) { … }` with pred a predicate comparing the frame's Type() with constants - and takes a frame
+// from the stream on every round. At the end of input peekFrame yields FIN or UNKNOWN for ever: neither is K (nor in
+// the predicate's set), so the condition fails and the loop is left; on a finite input every round consumes a frame.
+func peekLoop(prog *core.Program, h *ssa.BasicBlock, body map[*ssa.BasicBlock]bool, nextFrame, typeFn *ssa.Function, fin, unk int64) string {
+	peekIs := prog.SSAFunc("ast/codec", "Decoder.peekFrameIs")
+	peek := prog.SSAFunc("ast/codec", "Decoder.peekFrame")
+	iff, ok := h.Instrs[len(h.Instrs)-1].(*ssa.If)
+	if !ok || !body[h.Succs[0]] || body[h.Succs[1]] {
+		return ""
+	}
+	call, ok := iff.Cond.(*ssa.Call)
+	if !ok || call.Common().StaticCallee() == nil {
+		return ""
+	}
+	cal := call.Common().StaticCallee()
+	what := ""
+	switch {
+	case peekIs != nil && cal == peekIs:
+		// peekFrameIs itself must be `peekFrame().Type() == t`
+		okShape := false
+		for _, b := range cal.Blocks {
+			for _, in := range b.Instrs {
+				if bo, _, isEq := core.EqCond(valueOf(in)); isEq && bo.Op == token.EQL {
+					for _, pr := range [][2]ssa.Value{{bo.X, bo.Y}, {bo.Y, bo.X}} {
+						tc, isCall := pr[0].(*ssa.Call)
+						if isCall && tc.Common().StaticCallee() == typeFn && pr[1] == ssa.Value(cal.Params[len(cal.Params)-1]) {
+							okShape = true
+						}
+					}
+				}
+			}
+		}
+		args := call.Common().Args
+		k, isK := core.ConstIntValue(args[len(args)-1])
+		if !okShape || !isK || k == fin || k == unk {
+			return ""
+		}
+		what = "the next frame is of one wanted kind"
+	case peek != nil && len(call.Common().Args) == 1:
+		arg, isCall := call.Common().Args[0].(*ssa.Call)
+		if !isCall || arg.Common().StaticCallee() != peek || cal.Pkg == nil || !strings.HasSuffix(cal.Pkg.Pkg.Path(), "/ast/codec") {
+			return ""
+		}
+		// the predicate: returns true only behind equal edges of Type() == K, K never FIN/UNKNOWN
+		n := 0
+		for _, rs := range core.ReturnSites(cal) {
+			if len(rs.Results) != 1 {
+				return ""
+			}
+			k, isK := rs.Results[0].(*ssa.Const)
+			if !isK || k.Value == nil || k.Value.Kind() != constant.Bool {
+				return ""
+			}
+			if !constant.BoolVal(k.Value) {
+				continue
+			}
+			// every way into the returning block is the equal edge of a Type() == K test
+			blk := rs.Ret.Block()
+			if len(blk.Preds) == 0 {
+				return ""
+			}
+			for _, pred := range blk.Preds {
+				bo, eq, isEq := core.EqBranch(pred)
+				if !isEq || pred.Succs[eq] != blk || pred.Succs[0] == pred.Succs[1] {
+					return ""
+				}
+				var other ssa.Value
+				if tc, isC := bo.X.(*ssa.Call); isC && tc.Common().StaticCallee() == typeFn {
+					other = bo.Y
+				} else if tc, isC := bo.Y.(*ssa.Call); isC && tc.Common().StaticCallee() == typeFn {
+					other = bo.X
+				}
+				kv, isKv := core.ConstIntValue(other)
+				if other == nil || !isKv || kv == fin || kv == unk {
+					return ""
+				}
+				n++
+			}
+		}
+		if n == 0 {
+			return ""
+		}
+		what = "the next frame satisfies " + cal.Name() + " (a set of frame kinds without FIN and UNKNOWN)"
+	default:
+		return ""
+	}
+	// every round takes a frame: no way round the loop avoids a nextFrame call
+	consumes := func(b *ssa.BasicBlock) bool {
+		for _, in := range b.Instrs {
+			if core.StaticCallee(in) == nextFrame {
+				return true
+			}
+		}
+		return false
+	}
+	seen := map[*ssa.BasicBlock]bool{}
+	var round func(b *ssa.BasicBlock) bool
+	round = func(b *ssa.BasicBlock) bool {
+		if b == h {
+			return true
+		}
+		if !body[b] || seen[b] || consumes(b) {
+			return false
+		}
+		seen[b] = true
+		for _, s := range b.Succs {
+			if round(s) {
+				return true
+			}
+		}
+		return false
+	}
+	if round(h.Succs[0]) {
+		return ""
+	}
+	return "peek loop: goes on only while " + what + ", takes a frame on every round; at the end of input the peeked frame is FIN or UNKNOWN and the loop is left"
+}
+
+func valueOf(in ssa.Instruction) ssa.Value {
+	v, _ := in.(ssa.Value)
+	return v
 }
